@@ -39,6 +39,15 @@ pub fn run(out: &mut Out, seed: u64, tier: &str) {
         };
         mols.push(distort(&base, rng.range(0.05, 0.25), &mut rng));
     }
+    // exact ties with a saturating centre listed first: idealised axis-aligned coordination shells around a centre that may keep
+    // fewer bonds than it has equidistant candidates (bifluoride with H first, H3O drawn square, CH6 ...): which candidates are
+    // kept must not depend on anything that changes from run to run
+    for zc in [1usize, 3, 9, 8, 7, 6, 5, 16] { for zl in [1usize, 9, 17] { for geometry in ["linear", "square", "octahedral"] {
+        if tier != "thorough" && (zc + zl + geometry.len()) % 2 == 1 { continue; }
+        let mut m = centre(zc, zl, geometry, *rng.pick(&[0.95, 1.0, 1.1]));
+        m.name = format!("tie-{}", m.name);
+        mols.push(m);
+    } } }
     let (mut n, mut multi) = (0usize, 0usize);
     for m in mols.iter() {
         if m.n() > 20 || m.min_distance() < 0.5 { continue; }
